@@ -115,6 +115,8 @@ fn name_code(s: &str) -> u64 {
     }
 }
 struct RecSer;
+// what the recording serializer answers to is_human_readable(): serialisation cases run once per answer
+static HUMAN: std::sync::atomic::AtomicBool = std::sync::atomic::AtomicBool::new(true);
 struct Compound(u64, u64); // element code, end code
 macro_rules! other {
     ($($f:ident($t:ty) = $c:expr;)*) => { $(fn $f(self, _v: $t) -> Result<(), E> { tick(&[20, $c]) })* };
@@ -129,6 +131,9 @@ impl Serializer for RecSer {
     type SerializeMap = Compound;
     type SerializeStruct = Compound;
     type SerializeStructVariant = Compound;
+    fn is_human_readable(&self) -> bool {
+        HUMAN.load(std::sync::atomic::Ordering::Relaxed)
+    }
     other! { serialize_bool(bool) = 1; serialize_i8(i8) = 2; serialize_i16(i16) = 3; serialize_i32(i32) = 4; serialize_i64(i64) = 5;
              serialize_u8(u8) = 6; serialize_u16(u16) = 7; serialize_u64(u64) = 8; serialize_f32(f32) = 9; serialize_f64(f64) = 10;
              serialize_char(char) = 11; serialize_bytes(&[u8]) = 12; }
@@ -613,10 +618,20 @@ where
 {
     reset(0);
     let build = |v: &Val| T::deserialize(ValDe(v));
-    let (plain, inner) = match (build(val), build(val)) {
-        (Ok(a), Ok(b)) => (a, b),
+    let (plain, inner, inner2) = match (build(val), build(val), build(val)) {
+        (Ok(a), Ok(b), Ok(c)) => (a, b, c),
         _ => return vec![97],
     };
+    // the same comparison for a serializer that calls itself a binary (not human-readable) format: transparency is
+    // claimed for every serializer
+    HUMAN.store(false, std::sync::atomic::Ordering::Relaxed);
+    reset(fail);
+    let rp2 = plain.serialize(RecSer);
+    let lp2 = take_log();
+    reset(fail);
+    let rh2 = if handle == 0 { Arc::new(inner2).serialize(RecSer) } else { UniqueArc::new(inner2).serialize(RecSer) };
+    let lh2 = take_log();
+    HUMAN.store(true, std::sync::atomic::Ordering::Relaxed);
     reset(fail);
     let rp = plain.serialize(RecSer);
     let lp = take_log();
@@ -624,7 +639,7 @@ where
     let rh = if handle == 0 { Arc::new(inner).serialize(RecSer) } else { UniqueArc::new(inner).serialize(RecSer) };
     let lh = take_log();
     let mut out = err_obs(&rh).to_vec();
-    out.push((rp == rh && lp == lh) as u64);
+    out.push((rp == rh && lp == lh && rp2 == rh2 && lp2 == lh2) as u64);
     out.push(SEP);
     out.extend(lh);
     out
